@@ -66,6 +66,7 @@ pub struct TCfg {
     pub mtud_upper: Option<u16>,
     pub mtud_min_change: Option<u16>,
     pub mtud_interval_ms: Option<u64>,
+    pub mtud_cooldown_ms: Option<u64>,
     pub pad_to_mtu: Option<bool>,
     pub ack_freq: Option<bool>,
     pub ack_freq_threshold: Option<u64>,
@@ -113,6 +114,12 @@ pub struct Cfg {
     pub fates_c2s: Vec<String>,
     #[serde(default)]
     pub fates_s2c: Vec<String>,
+    /// explicit fates for the successive MTU probes of each direction (C13); a probe with an entry
+    /// here does not consume an entry of `fates_*`
+    #[serde(default)]
+    pub pfates_c2s: Vec<String>,
+    #[serde(default)]
+    pub pfates_s2c: Vec<String>,
     #[serde(default)]
     pub server: TCfg,
     #[serde(default)]
@@ -278,6 +285,9 @@ pub fn transport(t: &TCfg) -> TransportConfig {
             }
             if let Some(u) = t.mtud_interval_ms {
                 m.interval(Duration::from_millis(u));
+            }
+            if let Some(u) = t.mtud_cooldown_ms {
+                m.black_hole_cooldown(Duration::from_millis(u));
             }
             c.mtu_discovery_config(Some(m));
         }
@@ -579,6 +589,9 @@ pub struct World {
     pub tok: Option<Arc<crate::tokens::LogStore>>,
     pub tok_retry: Vec<Vec<u8>>,
     pub tok_srv_log: Option<Arc<Mutex<Vec<Value>>>>,
+    /// the transmit being sent is an MTU probe (ConnectionStats.sent_plpmtud_probes moved)
+    pub cur_is_probe: bool,
+    pub probe_count: [usize; 2],
 }
 
 pub struct MitmCtx<'a> {
@@ -813,6 +826,8 @@ impl World {
             tok: None,
             tok_retry: Vec::new(),
             tok_srv_log: None,
+            cur_is_probe: false,
+            probe_count: [0, 0],
             cfg,
         };
         crate::tokens::configure_world(&mut w);
@@ -977,6 +992,14 @@ impl World {
 
     fn fate_for(&mut self, from_server: bool) -> Fate {
         let dir = from_server as usize;
+        if self.cur_is_probe {
+            let k = self.probe_count[dir];
+            let pl = if from_server { &self.cfg.pfates_s2c } else { &self.cfg.pfates_c2s };
+            if let Some(f) = pl.get(k) {
+                self.probe_count[dir] += 1;
+                return parse_fate(f);
+            }
+        }
         let i = self.sent_count[dir];
         self.sent_count[dir] += 1;
         let list = if from_server {
@@ -1216,6 +1239,7 @@ impl World {
             return false;
         };
         let post = self.probe(n, c);
+        self.cur_is_probe = post["stats"]["sprobe"] != pre["stats"]["sprobe"];
         let seg = t.segment_size.unwrap_or(t.size);
         let mut dgs = Vec::new();
         let mut off = 0;
@@ -1248,6 +1272,7 @@ impl World {
             dgs.push(json!({"id":id,"size":size,"fate":fate_str(&fate),
                 "ok":pkts.is_some(),"pkts":pk.iter().map(pkt_json).collect::<Vec<_>>()}));
         }
+        self.cur_is_probe = false;
         let tnow = self.now_us;
         self.trace.push(json!({
             "ev":"Tx","t":tnow,"n":n,"c":c,"uid":self.nodes[n].conns[&c].uid,"dst":addr_id(t.destination),"size":t.size,
